@@ -69,8 +69,13 @@ func findTextwireFiles() (map[string]string, error) {
 	return result, nil
 }
 
+// nameFromPath returns the name of a template, which is its path
+// relative to the template directory without the extension
 func nameFromPath(path string) string {
-	name := strings.Replace(path, userConfig.TemplateDir+"/", "", 1)
-	name = strings.Replace(name, userConfig.TemplateExt, "", 1)
-	return name
+	name, err := filepath.Rel(userConfig.TemplateDir, path)
+	if err != nil {
+		name = path
+	}
+
+	return strings.TrimSuffix(filepath.ToSlash(name), userConfig.TemplateExt)
 }
